@@ -44,6 +44,24 @@ Theorem C11_a_listed_whole_number_is_matched_as_a_whole :
   exists c', RxFacts.match_at s (as_rx nums) i = Some ((i + length n)%nat, c').
 Proof. exact AsToken.as_engine_replaces_the_whole_number. Qed.
 
+(* Over a whole line: the leftmost-first scan under re.finditer / re.sub reports EVERY listed numeral that stands as a whole number, with its exact extent, and
+   nothing but listed whole numbers -- the spans the AS pass rewrites are exactly the listed whole numbers of the line, for every list and every line. *)
+Theorem C11_finditer_reports_every_listed_whole_number :
+  forall (s : list Rx.chr) (nums : list (list Rx.chr)) (n : list Rx.chr) (a : nat),
+  Forall (fun m => forallb is_digit m = true) nums -> Forall (fun m => m <> []) nums -> In n nums -> RxLang.occ s n a -> (a + length n <= length s)%nat ->
+  (a = 0%nat \/ ((1 <= a)%nat /\ exists x, nth_error s (a - 1) = Some x /\ Rx.in_cset x NOT_DIGIT = true)) ->
+  (Rx.eol s (a + length n) = true \/ exists x, nth_error s (a + length n) = Some x /\ Rx.in_cset x NOT_DIGIT = true) ->
+  forall fuel i : nat, (i <= a)%nat -> (a - i < fuel)%nat -> In (a, (a + length n)%nat) (RxFacts.finditer s fuel (as_rx nums) i).
+Proof. exact AsToken.as_finditer_reports_every_listed_whole_number. Qed.
+
+Theorem C11_finditer_reports_only_listed_whole_numbers :
+  forall (s : list Rx.chr) (nums : list (list Rx.chr)), nums <> [] -> Forall (fun m => m <> []) nums ->
+  forall fuel i a b : nat, (i <= length s)%nat -> In (a, b) (RxFacts.finditer s fuel (as_rx nums) i) ->
+  In (RxLang.sub s a b) nums /\
+  (a = 0%nat \/ ((1 <= a)%nat /\ exists x, nth_error s (a - 1) = Some x /\ Rx.in_cset x NOT_DIGIT = true)) /\
+  (Rx.eol s b = true \/ exists x, nth_error s b = Some x /\ Rx.in_cset x NOT_DIGIT = true).
+Proof. exact AsToken.as_finditer_reports_only_listed_whole_numbers. Qed.
+
 Example C11_range_ends : as_repl 0 65000 = AsOk 64512%Z /\ as_repl 1023 65000 = AsOk 65535%Z /\ as_repl 1024 65000 = AsOk 64512%Z.
 Proof. vm_compute. repeat split; reflexivity. Qed.
 
@@ -53,3 +71,5 @@ Print Assumptions C11_hash_is_nonnegative.
 Print Assumptions C11_pattern_consumes_text.
 Print Assumptions C11_pattern_matches_only_listed_whole_numbers.
 Print Assumptions C11_a_listed_whole_number_is_matched_as_a_whole.
+Print Assumptions C11_finditer_reports_every_listed_whole_number.
+Print Assumptions C11_finditer_reports_only_listed_whole_numbers.
